@@ -70,26 +70,22 @@ theorem prefix_under (p rest : List Char) : underPrefix p (String.ofList (p ++ [
 theorem makeV2Key_under {hs : Hashes} {p mk k2 : List Char} (h : makeV2Key hs p mk = .ok k2) :
     underPrefix p (String.ofList k2) = true := by
   simp only [makeV2Key] at h
-  split at h
-  · obtain ⟨sfx, _, h'⟩ := bind_ok h
-    simp [pure, Except.pure] at h'
-    subst h'
-    simpa [List.append_assoc] using prefix_under p (List.take (63 - sfx.length) (safeKey mk) ++ sfx)
-  · simp [pure, Except.pure, bind, Except.bind] at h
-    subst h
-    simpa [List.append_assoc] using prefix_under p (List.take 63 (safeKey mk))
+  split at h <;>
+  · obtain ⟨sfx, _, h1⟩ := bind_ok h
+    obtain ⟨name, _, h2⟩ := bind_ok h1
+    simp [pure, Except.pure] at h2
+    subst h2
+    simpa [List.append_assoc] using prefix_under p name
 
 theorem makeV1Key_under {hs : Hashes} {p mk k1 : List Char} (h : makeV1Key hs p mk = .ok k1) :
     underPrefix p (String.ofList k1) = true := by
   simp only [makeV1Key] at h
-  split at h
-  · simp [pure, Except.pure, bind, Except.bind] at h
-    subst h
-    simpa [List.append_assoc] using prefix_under p (pySliceTo (safeKey mk) (63 - (↑(p.length + 1) : Int) - 0))
-  · obtain ⟨sfx, _, h'⟩ := bind_ok h
-    simp [pure, Except.pure] at h'
-    subst h'
-    simpa [List.append_assoc] using prefix_under p (pySliceTo (safeKey mk) (63 - (↑(p.length + 1) : Int) - ↑sfx.length) ++ sfx)
+  split at h <;>
+  · obtain ⟨sfx, _, h1⟩ := bind_ok h
+    obtain ⟨name, _, h2⟩ := bind_ok h1
+    simp [pure, Except.pure] at h2
+    subst h2
+    simpa [List.append_assoc] using prefix_under p name
 
 /-- every key `make_keys` forms lies under the storage's prefix. -/
 theorem makeKeys_under {hs : Hashes} {v1 : Bool} {p mk : List Char} {ks : List String}
